@@ -303,6 +303,46 @@ func c15InotifyRequest(c *core.Ctx) {
 		}
 	}
 	c.Eval(512 * 2 * 3)
+	// alias widening: the same directory added a second time through a symlink with MORE operations:
+	// the newly requested operation must be observable (the kernel mask is replaced by the second request)
+	{
+		ld := filepath.Join(dir, "ld")
+		os.Symlink(filepath.Join(dir, "d"), ld)
+		dd := filepath.Join(dir, "d")
+		if err := w.AddWith(dd, real.VerifWithOps(real.Create)); err != nil {
+			c.Broken(err.Error())
+			return
+		}
+		if err := w.AddWith(ld, real.VerifWithOps(real.Create|real.Write)); err != nil {
+			c.Violate("inotify-request", fmt.Sprintf("alias AddWith failed: %v", err), nil)
+		}
+		if got, ok := fdinfoMask(fd, firstWd(fd)); !ok || got&unix.IN_ALL_EVENTS != unix.IN_CREATE|unix.IN_MODIFY {
+			c.Violate("inotify-request", fmt.Sprintf("AddWith(d, Create) then AddWith(link->d, Create|Write): kernel mask %s, needed %s", maskStr(got&unix.IN_ALL_EVENTS), maskStr(unix.IN_CREATE|unix.IN_MODIFY)), nil)
+		}
+		for len(evs) > 0 {
+			<-evs
+		}
+		x := filepath.Join(dd, "aw")
+		os.WriteFile(x, []byte("12"), 0o644)
+		var seen real.Op
+		for i := 0; i < 4000 && seen&real.Write == 0; i++ {
+			select {
+			case e := <-evs:
+				if strings.HasSuffix(e.Name, "/aw") {
+					seen |= e.Op
+					c.Res.Counters["inotify_behaviour_events"]++
+				}
+			default:
+				unix.Nanosleep(&unix.Timespec{Nsec: 50000}, nil)
+			}
+		}
+		if seen&real.Write == 0 {
+			c.Violate("inotify-request-unobservable", fmt.Sprintf("AddWith(d, Create); AddWith(symlink to d, Create|Write); a write to an entry was reported as %s: the requested Write is not observable", seen), nil)
+		}
+		os.Remove(x)
+		w.Remove(dd)
+		c.Distinct("alias-widening")
+	}
 	// behavioural pass: single operations on a directory watch
 	drain := func() []real.Event {
 		var l []real.Event
